@@ -57,6 +57,10 @@ def gen_case(rng, tier, late=False, reread=False):
             d["aliases"] = []
             if not d["conns"]:
                 continue
+            if rng.random() < 0.5:
+                d["mon"] = list(range(1, nc))     # the only non-monitored structure is the one whose matrix changes
+            elif rng.random() < 0.5 and nc >= 2:
+                d["mon"] = [0]                    # ... or it is the only monitored one
         return d
 
 
